@@ -126,6 +126,11 @@ def main():
         record(events, errors, Q.ternary(alpha=alpha, threshold=thr), meta, n, x, ak == "none")
         record(events, errors, Q.ternary(alpha=alpha, threshold=thr), dict(meta, g=999), None, free_data(rnd, shape),
                ak == "none")
+        # the stochastic classes at inference ARE binary / ternary (same codes, same scale)
+        sbm = dict(meta, cls="binary", use01=0, args={"stochastic_class": 1})
+        record(events, errors, Q.stochastic_binary(alpha=alpha), sbm, n, x, ak == "none")
+        if ak in ("auto", "auto_po2"):
+          record(events, errors, Q.stochastic_ternary(alpha=alpha), dict(meta, args={"stochastic_class": 1}), n, x, False)
         if ak in ("none", "const"):
           use01 = rnd.random() < 0.5
           bm = dict(meta, cls="binary", use01=int(use01), args={})
